@@ -667,7 +667,6 @@ func checkC15(c *Ctx) {
 	}
 }
 
-
 // checkGlobalTableReads — R15f. httpgen collects unwrap information from every
 // file generated in the invocation (GlobalUnwrapInfo.UnwrapFields). For the
 // output of one file not to depend on its companions, a lookup in that table
